@@ -32,6 +32,7 @@ type Contract struct {
 	Ensures     []Clause
 	Modifies    []string
 	LoopInv     map[int][]Clause
+	IterInv     map[int][]Clause
 	LoopFinger  map[int]string
 	Trusted     bool
 	NoPanic     bool
@@ -109,7 +110,7 @@ func (p *Prog) parseContractFile(rel, file, src string) []string {
 				cur = nil
 				continue
 			}
-			cur = &Contract{LoopInv: map[int][]Clause{}, LoopFinger: map[int]string{}, File: file, Line: startLine, Lemma: word == "lemma"}
+			cur = &Contract{IterInv: map[int][]Clause{}, LoopInv: map[int][]Clause{}, LoopFinger: map[int]string{}, File: file, Line: startLine, Lemma: word == "lemma"}
 			key := rel + "."
 			if m[2] != "" {
 				rn := m[2]
@@ -205,6 +206,27 @@ func (p *Prog) parseContractFile(rel, file, src string) []string {
 			} else {
 				fail("loop: expected invariant")
 			}
+		case "iter":
+			if cur == nil {
+				fail("iter outside a func block")
+				continue
+			}
+			parts := strings.SplitN(rest, " ", 2)
+			n, err := strconv.Atoi(parts[0])
+			if err != nil || len(parts) < 2 || !strings.HasPrefix(strings.TrimSpace(parts[1]), "invariant") {
+				fail("iter: expected `iter N invariant [label] expr`")
+				continue
+			}
+			label, txt := splitLabel(strings.TrimSpace(strings.TrimSpace(parts[1])[len("invariant"):]))
+			ex, err := parseExpr(txt)
+			if err != nil {
+				fail(fmt.Sprintf("iter invariant: %v", err))
+				continue
+			}
+			if label == "" {
+				label = autoLabel(txt)
+			}
+			cur.IterInv[n] = append(cur.IterInv[n], Clause{label: label, expr: ex, src: txt, line: startLine})
 		case "assume":
 			if cur != nil {
 				cur.Assumes = append(cur.Assumes, rest)
